@@ -769,6 +769,120 @@ pub fn plaindrop(seed: u64, kind: usize, nthreads: usize, len: usize, st: &mut C
 }
 
 // ---------------------------------------------------------------------------------------------
+// scenario: uninitpoll [C15, C03] -- the deprecated Arc<MaybeUninit<T>>::write / Arc<[MaybeUninit<T>]>::as_mut_slice
+// gate: readers on other threads read the (initialised) slot through their own handles and let go; the
+// writer waits -- by relaxed count reads only -- until it is alone and then writes through the
+// deprecated API. The uniqueness decision inside the API is what must order the write after the reads.
+
+#[allow(deprecated)]
+pub fn uninitpoll(seed: u64, variant: usize, nreaders: usize, st: &mut CStats) -> Result<(), (Viol, Vec<String>)> {
+    use std::mem::MaybeUninit;
+    tk::set_thread_ix(0);
+    shadow::reset();
+    let _ = sink::take();
+    sink::arm(nreaders + 1);
+    let slice = variant % 2 == 1;
+    let name = if slice { "as_mut_slice" } else { "write" };
+    let fail = |oracle: &'static str, msg: String| {
+        Err((
+            Viol {
+                props: "C15,C03",
+                oracle,
+                msg: format!("[uninitpoll {}] {}", name, msg),
+            },
+            vec![],
+        ))
+    };
+    let mut readers = Vec::new();
+    let mut rng = Rng::new(seed);
+    let ok;
+    if !slice {
+        let mut a: Arc<MaybeUninit<[u64; 3]>> = shadow::tracked(Arc::new_uninit);
+        a.write([1, 2, 3]);
+        for t in 1..=nreaders {
+            let b = shadow::tracked(|| a.clone());
+            let spins = rng.below(4);
+            readers.push(spawn(move || {
+                worker_prelude(t as u8, seed);
+                for _ in 0..spins {
+                    std::thread::yield_now();
+                }
+                let seen: [u64; 3] = unsafe { b.assume_init_read() };
+                shadow::tracked(|| drop(b));
+                sink::thread_done();
+                let _ = sink::take();
+                seen.iter().sum::<u64>()
+            }));
+        }
+        let mut budget = 200_000_000u64;
+        while Arc::strong_count(&a) != 1 && budget > 0 {
+            std::thread::yield_now();
+            budget -= 1;
+        }
+        // alone now: the deprecated gate must grant (and order) the write
+        a.write([4, 5, 6]);
+        let a = unsafe { a.assume_init() };
+        ok = *a == [4, 5, 6];
+        shadow::tracked(|| drop(a));
+    } else {
+        let mut a: Arc<[MaybeUninit<u16>]> = shadow::tracked(|| Arc::new_uninit_slice(5));
+        for (k, s) in a.as_mut_slice().iter_mut().enumerate() {
+            s.write(k as u16 + 1);
+        }
+        for t in 1..=nreaders {
+            let b = shadow::tracked(|| a.clone());
+            let spins = rng.below(4);
+            readers.push(spawn(move || {
+                worker_prelude(t as u8, seed);
+                for _ in 0..spins {
+                    std::thread::yield_now();
+                }
+                let sum: u64 = b.iter().map(|s| unsafe { s.assume_init_read() } as u64).sum();
+                shadow::tracked(|| drop(b));
+                sink::thread_done();
+                let _ = sink::take();
+                sum
+            }));
+        }
+        let mut budget = 200_000_000u64;
+        while Arc::strong_count(&a) != 1 && budget > 0 {
+            std::thread::yield_now();
+            budget -= 1;
+        }
+        a.as_mut_slice()[2].write(99);
+        let a = unsafe { a.assume_init() };
+        ok = a[..] == [1, 2, 99, 4, 5];
+        shadow::tracked(|| drop(a));
+    }
+    let expect: u64 = if slice { 15 } else { 6 };
+    let mut sums = Vec::new();
+    for h in readers {
+        sums.push(join_out(h, "C15,C03", "uninitpoll")?);
+    }
+    sink::disarm();
+    let _ = sink::take();
+    if sink::AFTER_FREE.swap(0, Relaxed) != 0 {
+        return fail("count-after-free", "a reference-count operation was performed after the block had been returned to the allocator".into());
+    }
+    if !ok {
+        return fail("uninit", "the value written through the deprecated gate is not what the sole owner reads back".into());
+    }
+    if let Some(s) = sums.iter().find(|s| **s != expect) {
+        return fail("uninit", format!("a reader saw checksum {} (expected {}): the writer's store overlapped its read", s, expect));
+    }
+    if shadow::active() {
+        if let Some(x) = shadow::take_findings().first() {
+            return fail("alloc", format!("allocator monitor: {:?}", x));
+        }
+        if !shadow::live_blocks().is_empty() {
+            return fail("alloc", "block left behind".into());
+        }
+    }
+    st.counts.bump(&format!("conc.uninitpoll.{}.granted", name));
+    Ok(())
+}
+
+// ---------------------------------------------------------------------------------------------
 // scenario: clonedrop [C02]
 
 pub fn clonedrop<X: Hnd>(
